@@ -12,7 +12,7 @@ RULE = ("every dtype in {bool,int,float,complex,str,date,timedelta,object(mixed)
         "and scalar (plus date vectors against ISO strings: scalar, list, str vector; v == v; unequal lengths), the "
         "reductions sum, mean, min, max, stdev (sample and population), any, all, and isna/dropna/fillna with compatible, "
         "promoting (int<-float, int<-complex, float<-complex, date<-datetime), incompatible and None fill values on typed, "
-        "untyped, all-None and empty vectors; per-group aggregates (sum, mean, min, max, count, stdev) of Table.aggregate on "
+        "untyped, all-None and empty vectors; per-group aggregates (sum, mean, min, max, count, stdev) of Table.aggregate and Table.window on "
         "value columns with random None placement. Oracles: Python's scalar operation per pair, Python's builtin reduction "
         "of the None-free list. non-trivial = the inputs contain at least one None (for na/red/agg: every case that is not skipped)")
 ASSUMPTIONS = [
@@ -201,7 +201,7 @@ def gen_agg(rng, tier):
         xt = rng.choice(["int", "float", "bool", "int", "float", "str", "date", "td", "complex"])
         n = rng.choice([1, 2, 3, 4, 6, 9])
         yield {"fam": "agg", "xt": xt, "x": cfill(rng, xt, [rng.random() < 0.35 for _ in range(n)]),
-               "k": [rng.choice([1, 2, 3, None]) for _ in range(n)]}
+               "k": [rng.choice([1, 2, 3, None]) for _ in range(n)], "win": i % 3 == 2}
 
 
 def generate(rng, tier):
@@ -470,8 +470,11 @@ def agg_wire(spec):
         return {"skip": "could not build the table: " + type(e).__name__}
     if all(k is None for k in ks):
         return {"skip": "all-None key column"}
-    r, err = G.run(lambda: t.aggregate(over=t.k, sum_over=t.x, mean_over=t.x, min_over=t.x, max_over=t.x,
-                                       count_over=t.x, stdev_over=t.x))
+    # window() computes the same per-group aggregates and hands them to every row of the group: the loop below looks each
+    # output row's group up by its key, so it judges both forms
+    f = t.window if spec.get("win") else t.aggregate
+    r, err = G.run(lambda: f(over=t.k, sum_over=t.x, mean_over=t.x, min_over=t.x, max_over=t.x,
+                             count_over=t.x, stdev_over=t.x))
     groups = {}
     for k, x in zip(ks, xs):
         groups.setdefault(k, []).append(x)
@@ -642,7 +645,7 @@ def snippet(spec):
                 "f = v.fillna(x); print(list(f), f.schema())")
     if fam == "agg":
         return (G.HEADER + f"t = Table({{'k': {spec['k']!r}, 'x': {G.pyrepr(xs)}}})\n"
-                "r = t.aggregate(over=t.k, sum_over=t.x, mean_over=t.x, min_over=t.x, max_over=t.x, count_over=t.x, stdev_over=t.x)\n"
+                f"r = t.{'window' if spec.get('win') else 'aggregate'}(over=t.k, sum_over=t.x, mean_over=t.x, min_over=t.x, max_over=t.x, count_over=t.x, stdev_over=t.x)\n"
                 "print([list(c) for c in r.cols()])   # expected: each aggregate over the group's non-None values")
     return repr(spec)
 
